@@ -217,7 +217,10 @@ func c18Decode(mod string, k, v []byte) c18KV {
 			var info operatortypes.OperatorInfo
 			if err := info.Unmarshal(v); err == nil {
 				kv.T = "info"
-				kv.N = []int64{info.Commission.UpdateTime.UnixNano()}
+				kv.N = []int64{-1} // Go's zero time
+				if !info.Commission.UpdateTime.IsZero() {
+					kv.N[0] = info.Commission.UpdateTime.UnixNano()
+				}
 				info.Commission.UpdateTime = time.Unix(0, 0).UTC()
 				bz, _ := info.Marshal()
 				kv.V = c18Digest(bz)
@@ -558,25 +561,15 @@ func c18ConsAddrs(ctx sdk.Context, app *exocoreapp.ExocoreApp) [][2]string {
 	return out
 }
 
-// c18ValMap: for every stored dogfood validator (by consensus address) what the operator module answers
-// to ValidatorByConsAddrForChainID - the exporter's external call: consensus address and public key of
-// the owning operator's CURRENT key.
-func c18ValMap(ctx sdk.Context, app *exocoreapp.ExocoreApp, chainID string) [][2]string {
-	st := ctx.KVStore(app.GetKey(dogfoodtypes.ModuleName))
-	it := sdk.KVStorePrefixIterator(st, []byte{dogfoodtypes.ExocoreValidatorBytePrefix})
-	defer it.Close()
+// c18ValMap: the key under which every stored dogfood validator is exported.  The exporter as found asked the
+// operator module (ValidatorByConsAddrForChainID) and got the operator's CURRENT key; the repaired exporter
+// exports the validator as stored, so the map is the identity (address -> address ++ public key).
+func c18ValMap(ctx sdk.Context, app *exocoreapp.ExocoreApp, _ string) [][2]string {
 	var out [][2]string
-	for ; it.Valid(); it.Next() {
-		addr := it.Key()[1:]
-		val, found := app.OperatorKeeper.ValidatorByConsAddrForChainID(ctx, sdk.ConsAddress(addr), avstypes.ChainIDWithoutRevision(chainID))
-		if !found {
-			continue
+	for _, kv := range c18Dump(ctx, app, dogfoodtypes.ModuleName) {
+		if strings.HasPrefix(kv.K, "01") && kv.T == "list" && len(kv.L) == 2 {
+			out = append(out, [2]string{kv.K[2:], kv.K[2:] + kv.L[1]})
 		}
-		pk, err := val.ConsPubKey()
-		if err != nil {
-			continue
-		}
-		out = append(out, [2]string{hex.EncodeToString(addr), hex.EncodeToString(sdk.GetConsAddress(pk)) + hex.EncodeToString(pk.Bytes())})
 	}
 	return out
 }
@@ -610,6 +603,9 @@ func c18Tags(c *c18Case) []string {
 		for _, kv := range c.Before {
 			if strings.HasPrefix(kv.K, "07") {
 				cur["0a"+kv.K[42:]+ca[kv.V]] = true
+			}
+			if strings.HasPrefix(kv.K, "08") && len(kv.K) > 42 {
+				cur["0a"+kv.K[2:len(kv.K)-40]+ca[kv.V]] = true
 			}
 		}
 		na := 0
@@ -833,6 +829,16 @@ func (w *c18World) price() bool {
 	})
 }
 
+const c18AssetB = "0xbbbbbbbbbbbbbbbbbbbbbbbbbbbbbbbbbbbbbbbb"
+
+// onB runs f with the second token as the current asset
+func (w *c18World) onB(f func()) {
+	old := w.asset
+	w.asset = common.HexToAddress(c18AssetB)
+	defer func() { w.asset = old }()
+	f()
+}
+
 const c18NSTAssetID = "0xeeeeeeeeeeeeeeeeeeeeeeeeeeeeeeeeeeeeeeee_0x65"
 
 func (w *c18World) newKey() keytypes.WrappedConsKey {
@@ -908,8 +914,8 @@ func (w *c18World) slash(op *c18Op) bool {
 	k := op.keys[w.rng.Intn(len(op.keys))]
 	return w.do("slash("+op.addr.String()[:10]+")", func(ctx sdk.Context) error {
 		h := ctx.BlockHeight() - 1
-		if h < 1 {
-			h = 1
+		if h < 1 || w.rng.Intn(3) == 0 {
+			h = ctx.BlockHeight() // boundary: event height == submitted height
 		}
 		w.r.env.App.StakingKeeper.SlashWithInfractionReason(ctx, k.ToConsAddr(), h, 1,
 			sdk.NewDecWithPrec(int64(1+w.rng.Intn(20)), 2), stakingtypes.Infraction_INFRACTION_DOWNTIME)
@@ -944,6 +950,7 @@ func runC18(a *Args) error {
 			app.AppCodec().MustUnmarshalJSON(gs[dogfoodtypes.ModuleName], &dg)
 			dg.Params.EpochIdentifier = epochstypes.MinuteEpochID
 			dg.Params.EpochsUntilUnbonded = 5
+			dg.Params.MaxValidators = 2 // small, so that the validator set is sometimes exactly full
 			gs[dogfoodtypes.ModuleName] = app.AppCodec().MustMarshalJSON(&dg)
 			// a validated genesis has lower-case token addresses (assets ValidateGenesis); env.go's is mixed-case
 			var ag assetstypes.GenesisState
@@ -958,6 +965,11 @@ func runC18(a *Args) error {
 					ag.Deposits[i].Deposits[j].Info.WithdrawableAmount = sdkmath.ZeroInt()
 				}
 			}
+			// a second, newly listed LST token: the histories keep it on the boundaries of the cross-checks of
+			// assets genesis validation (one depositor = whole supply, everything delegated to one operator, ...)
+			ag.Tokens = append(ag.Tokens, assetstypes.StakingAssetInfo{AssetBasicInfo: assetstypes.AssetInfo{
+				Name: "Token B", Symbol: "TKB", Address: c18AssetB, Decimals: 6,
+				LayerZeroChainID: 101, MetaInfo: "second token"}, StakingTotalAmount: sdkmath.ZeroInt()})
 			ag.Tokens = append(ag.Tokens, assetstypes.StakingAssetInfo{AssetBasicInfo: assetstypes.AssetInfo{
 				Name: "Native ETH", Symbol: "ETH", Address: "0xeeeeeeeeeeeeeeeeeeeeeeeeeeeeeeeeeeeeeeee", Decimals: 18,
 				LayerZeroChainID: 101, MetaInfo: "native restaking"}, StakingTotalAmount: sdkmath.ZeroInt()})
@@ -1039,6 +1051,17 @@ func (w *c18World) scripted(p int) {
 		w.delegate(s0, w.ops[0], 300)
 		w.delegate(s0, w.ops[1], 200)
 		w.nstDeposit(w.stakers[1])
+		// boundary states of the assets / dogfood genesis validators, reached through the real entry points:
+		// token B: a single depositor owns the whole staked supply and delegates ALL of it to ONE operator
+		w.onB(func() {
+			w.deposit(w.stakers[3], 700)
+			w.delegate(w.stakers[3], w.ops[0], 700)
+		})
+		// an operator whose self delegation is EXACTLY the minimum self delegation (100 USD)
+		w.deposit(w.ops[2].staker, 100)
+		w.delegate(w.ops[2].staker, w.ops[2], 100)
+		w.associate(w.ops[2])
+		w.optIn(w.ops[2])
 	case 1:
 		w.undelegate(s0, w.ops[0], 30) // from an active validator: held by dogfood until the unbonding epoch
 		w.replaceKey(w.ops[0])         // active validator replaces its key: old consensus address queued for pruning
@@ -1048,6 +1071,26 @@ func (w *c18World) scripted(p int) {
 		w.undelegate(s0, w.ops[2], 0)  // rejected
 	case 4:
 		w.slash(w.ops[1])
+	case 5:
+		// opt in and out inside one block (OptedOutHeight == OptedInHeight)
+		w.deposit(w.ops[3].staker, 600)
+		w.delegate(w.ops[3].staker, w.ops[3], 500)
+		w.associate(w.ops[3])
+		w.optIn(w.ops[3])
+		w.optOut(w.ops[3])
+	case 7:
+		// token B: the whole supply becomes pending undelegation at the single operator
+		w.onB(func() { w.undelegate(w.stakers[3], w.ops[0], 700) })
+	case 22:
+		// ... and, once released, is delegated as a whole to another operator, the operator's own staker adds to it
+		w.onB(func() {
+			w.delegate(w.stakers[3], w.ops[2], 700)
+		})
+	case 24:
+		w.onB(func() {
+			w.withdraw(w.stakers[3], 0)
+			w.undelegate(w.stakers[3], w.ops[2], 350)
+		})
 	}
 }
 
